@@ -55,6 +55,16 @@ class RuleContext:
         self.stats: dict[str, Any] = {}
         self.assumptions: list[str] = []
         self.not_decided: list[str] = []
+        self.errors: list[str] = []
+
+    def try_rule(self, fn: Any, *args: Any) -> None:
+        """run one rule; an analysis error in it is recorded and the other rules still run (a violation found elsewhere is
+        never masked by one rule that cannot interpret its anchor)"""
+        from .model import AnalysisError
+        try:
+            fn(self, *args)
+        except AnalysisError as e:
+            self.errors.append(str(e))
 
     def rule(self, rid: str, text: str) -> None:
         self.rules[rid] = text
@@ -86,7 +96,7 @@ class RuleContext:
         from .model import AnalysisError
         n = self.count(rule)
         if n < minimum:
-            raise AnalysisError(
+            self.errors.append(
                 f'rule {rule} matched {n} instance(s); at least {minimum} were confirmed by hand '
                 f'(a rule that matches nothing would pass vacuously)')
 
